@@ -96,8 +96,9 @@ def Tensor.zeros (s : Shape) : Tensor := ⟨s, List.replicate s.size 0⟩
 
 /-! ### Parameter -/
 
+/-- the device instances of the harness: two `devices::Naive` objects and one `devices::Eigen` -/
 inductive Dev where
-  | naive | eigen
+  | naive | eigen | naive2
 deriving DecidableEq, Repr
 
 /-- The fields of a valid `Parameter` (`device_ != nullptr`). -/
